@@ -860,6 +860,14 @@ pub fn scenarios(prop: &str, tier: &str) -> Vec<Cfg> {
                         // completing futures is the interesting dimension here
                         c.costly = ops::FEED_UP | ops::POLL_NEW;
                     }
+                    if n >= 2 && len >= n + 2 {
+                        // the same with futures that wake themselves in the poll in which they complete
+                        // (stale queue entries inside the adapter's set)
+                        let mut w2 = c.clone();
+                        w2.name = format!("{} (self-waking completers)", w2.name);
+                        w2.up_modes = [Mode::Gate, Mode::WakeReady];
+                        v.push(w2);
+                    }
                     v.push(c);
                 }
             }
